@@ -28,6 +28,10 @@ FIXED_ENV = {
     "TF_CPP_MIN_LOG_LEVEL": "3",
     "JAX_PLATFORMS": "cpu",
     "OMP_NUM_THREADS": "1",
+    # the native permanent requests num_threads(4*hardware_concurrency) on every call, which
+    # ignores OMP_NUM_THREADS; the thread limit keeps the same job arithmetic on one thread
+    # (checks that vary threads/partitions override this in their own subprocesses)
+    "OMP_THREAD_LIMIT": "1",
     "NUMBA_NUM_THREADS": "1",
     "OPENBLAS_NUM_THREADS": "1",
     "MKL_NUM_THREADS": "1",
